@@ -17,6 +17,7 @@ import sys
 from .. import gen
 from ..engine import generic_shrink, VERIF
 from ..compare import compare_texts, tied_groups, union_ties, ALL_TIED, sha
+from ..world import target_kwargs
 from .common import Sim, SimEndpoint, violation, finish, set_knob, NEVER_FLUSH, components, shape_stats, SHEXC, SHACL
 
 ID = "C19"
@@ -154,7 +155,7 @@ def generate(rng, tier, index):
 def _case_kwargs(case, sim):
     import rdflib
     kw = {}
-    kw.update(copy.deepcopy(case["target"]))
+    kw.update(target_kwargs(case["target"]))
     kw.update(copy.deepcopy(case["options"]))
     kw["namespaces_dict"] = copy.deepcopy(case["ns"])
     ch = case["channel"]
